@@ -14,7 +14,7 @@ IsNil(x) == x.T = "nil"
 \* the 802.1Q tag is present iff the tag carries anything (a VLAN id, a priority or the DEI bit)
 Tagged(v) == v.VID # <<0, 0>> \/ v.PCP # <<0>> \/ v.DEI # <<0>>
 TCI(v) == << v.PCP[1] * 32 + v.DEI[1] * 16 + v.VID[1], v.VID[2] >>
-EncOption(o) == o.Type \o o.Length \o o.Data
+EncOption(o) == o.Type \o o.Length \o Fix(o.Data, o.Length[1])      \* Data cut / zero-filled to the declared length
 EncHbh(h) == LET body == h.NextHeader \o h.HEL \o Flat([i \in DOMAIN h.Options |-> EncOption(h.Options[i])]) IN
              body \o Zeros(8 * (h.HEL[1] + 1) - Len(body))
 EncRouting(h) == h.NextHeader \o h.HEL \o h.RoutingType \o h.SegmentsLeft \o h.Data.B
